@@ -28,7 +28,7 @@ run_demo() { # $1 = label (with|without)
   for d in $list; do
     case "$d" in
       *.sh) kind=sh; mkdir -p _seed; cp "$seed"/demo* "$seed"/*.c "$seed"/ssh-standin _seed/ 2>/dev/null; for cf in _seed/*.c; do [ -f "$cf" ] && gcc -shared -fPIC -O1 -o "${cf%.c}.so" "$cf" -ldl 2>/dev/null; done; timeout 600 bash "_seed/$(basename "$d")" >"/tmp/cs-$name.$1.log" 2>&1; rc=$?; break;;
-      *.py) kind=py; mkdir -p _seed; cp "$seed"/demo* _seed/ 2>/dev/null; COPIA_BIN="$CARGO_TARGET_DIR/debug/copia" timeout 600 python3 "_seed/$(basename "$d")" >"/tmp/cs-$name.$1.log" 2>&1; rc=$?; break;;
+      *.py) kind=py; mkdir -p _seed; cp "$seed"/demo* "$seed"/*.py "$seed"/*.c _seed/ 2>/dev/null; COPIA_BIN="$CARGO_TARGET_DIR/debug/copia" timeout 600 python3 "_seed/$(basename "$d")" >"/tmp/cs-$name.$1.log" 2>&1; rc=$?; break;;
       *.rs) kind=rs; if grep -q "rustc" "$d" && grep -q "path" "$d"; then mkdir -p _seed target; cp "$d" _seed/; timeout 600 bash -c "rustc --edition 2021 --test -A warnings _seed/$(basename "$d") -o target/demo_bin && ./target/demo_bin" >"/tmp/cs-$name.$1.log" 2>&1; rc=$?; else cp "$d" tests/zz_seed_demo.rs; timeout 900 cargo test --offline --features cli --test zz_seed_demo >"/tmp/cs-$name.$1.log" 2>&1; rc=$?; rm -f tests/zz_seed_demo.rs; fi; break;;
     esac
   done
